@@ -81,7 +81,8 @@ class GeoImage(ObjectBase):
     @cells.setter
     def cells(self, indices):
         assert indices.dtype == "uint32", "Indices array must be of type 'uint32'"
-        self._cells = indices
+        # the image keeps an array of its own (a copy is handed its source's array)
+        self._cells = indices.copy()
         self.workspace.update_attribute(self, "cells")
 
     def copy(
